@@ -24,7 +24,7 @@ PROP = 'C19'
 WORKER = os.path.join(env.VERIF, 'checks', 'c19_worker.py')
 CHEAP = ['str', 'fmt_h', 'fmt_A', 'fmt_m', 'fmt_a', 'atoms_order', 'chiral_morgan', 'smiles_atoms_order', 'sssr',
          'atoms_rings_sizes', 'connected_components', 'linear_hash_set', 'morgan_hash_set', 'stereo_sets', 'labels']
-MEDIUM = ['linear_fingerprint', 'morgan_fingerprint', 'automorphism', 'self_sub', 'self_sub_all', 'kekule', 'thiele',
+MEDIUM = ['linear_fingerprint', 'morgan_fingerprint', 'automorphism', 'self_sub', 'self_sub_all', 'scoped_sub', 'kekule', 'thiele',
           'canonicalize', 'neutralize', 'morgan_hash_smiles', 'morgan_smiles_hash', 'linear_hash_smiles', 'linear_smiles_hash', 'clean_stereo', 'clean_isotopes', 'implicify_hydrogens', 'explicify_hydrogens']
 EXPENSIVE = ['standardize', 'enumerate_kekule', 'enumerate_tautomers', 'canonicalize_log', 'standardize_log', 'neutralize_log',
              'standardize_charges_log', 'fix_resonance_log', 'implicify_hydrogens_log', 'enumerate_charged_forms', 'mcs', 'split',
@@ -56,6 +56,7 @@ CORE_SMILES = [
     'NC(CC(=O)C)C(=O)O', 'OC(=O)CC(=O)CCN', 'CC(=O)CC(C)=O', 'Oc1ccccn1',                                      # tautomers
     'C.C.C', 'CCO.CCO.CCN', '[Na+].[Na+].[O-]S([O-])(=O)=O',                                                   # identical / many components
     'Cl[Pt](Cl)(N)N', 'C[Mg]Br', 'N[Cu]N',                                                                     # metals
+    'Cc1cn2ccsc2n1', 'N1C=Cn2cccc12', 'c1ccc2c(c1)[nH]c1ccccc21', 'C1=CC2=CC=CN2C=C1',                        # fused hetero rings (scoped matching inside thiele)
     'CN(C)(C)=O', 'CN(=O)=O', 'C[S+](C)[O-]', 'CN=[N+]=[N-]', 'C=[N+]=[N-]',                                   # standardisation groups
 ]
 FILES = ['isomorphism.sdf', 'mcs.sdf', 'standardize.sdf', 'arenes.sdf', 'hbonds.sdf', 'depict.sdf', 'implicit.sdf',
@@ -70,6 +71,8 @@ RXN_SMILES = ['CCO.CC(=O)O>>CC(=O)OCC.O', '[CH3:1][CH2:2][OH:3].[CH3:4][C:5](=[O
               '[Na+].[OH-].CCl>>CO.[Na+].[Cl-]', 'C[C@H](O)C(=O)O>>C[C@@H](O)C(=O)O', 'C/C=C/C.BrBr>>C[C@H](Br)[C@@H](C)Br',
               'CC#N.O>>CC(N)=O', 'c1ccncc1.CI>>C[n+]1ccccc1.[I-]', 'O=C1CCCCC1.NO>>ON=C1CCCCC1.O', 'CCBr.[Mg]>>CC[Mg]Br',
               'C1CC1.[H][H]>>CCC', 'N#N.[H][H].[H][H].[H][H]>>N.N',
+              'C[CH2].[H][H]>>CC', '[CH3].[CH3]>>CC', 'CC[O]>>CC=O', 'C[CH]C.ClCl>>CC(Cl)C.[Cl]',     # radical members (CXSMILES block)
+              'CCO.CC(O)=O>[H+]>CC(=O)OCC.O', '[CH3:1][OH:2].CC(Cl)=O>N>[CH3:1][O:2]C(C)=O.Cl',       # unmapped / partially mapped atoms
               # atom-to-atom mapping errors in two groups at once (the mapping fixer has to remap several groups)
               '[CH3:1][C:2](=[O:3])[O:4][CH3:5].[CH3:6][C:7](=[O:8])[O:9][CH3:10].[OH2:11].[OH2:12]>>[CH3:1][C:2](=[O:4])[OH:3].[CH3:6][C:7](=[O:9])[OH:8].[CH3:5][OH:11].[CH3:10][OH:12]',
               '[CH3:1][N+:2](=[O:3])[O-:4].[CH3:5][N+:6](=[O:7])[O-:8]>>[CH3:1][N+:2](=[O:4])[O-:3].[CH3:5][N+:6](=[O:8])[O-:7]',
@@ -323,7 +326,8 @@ def _main(a, scratch):
     n = min(T['mols'], len(corpus_all))
     core_idx = [k for k, c in enumerate(corpus_all) if c[0] == 'smi' and c[1] in CORE_SMILES] + \
                [k for k, c in enumerate(corpus_all) if c[0] in ('rxnsmi',)][:6] + \
-               [k for k, c in enumerate(corpus_all) if c[0] == 'rxnsmi' and ':11]' in c[1]]
+               [k for k, c in enumerate(corpus_all) if c[0] == 'rxnsmi' and (':11]' in c[1] or '[CH2]' in c[1] or '[CH3].' in c[1]
+                                                                             or '[O]' in c[1] or '[CH]' in c[1] or '>N>' in c[1])]
     first = core_idx + [k for k in special[:n // 4] if k not in set(core_idx)]
     chosen = (first + [k for k in idx if k not in set(first)])[:max(n, len(core_idx) + 40)]
     slice_n = T.get('slice', n)
